@@ -903,6 +903,12 @@ func stateFoundArrayEnd(s *Scanner) state {
 // such as after reading `{}` or `[1,2,3]`.
 // Only space characters should be seen now.
 func stateEndTop(s *Scanner, c byte) state {
+	if s.hasTrailingCharacters {
+		// The previous character already was outside the schema.
+		s.found(lexeme.EndTop)
+		return scanContinue
+	}
+
 	switch {
 	case s.isNewLine(c):
 		s.found(lexeme.NewLine)
